@@ -96,6 +96,56 @@ def root_cause(ts, cfg, res):
 
 
 # --------------------------------------------------------------------------
+# finding C17-F5 = C09-F3 (a "stem" cut out of the labels of a class of blank nodes only)
+# --------------------------------------------------------------------------
+
+RC_BNODE_STEM = "rc_bnode_label_stem"
+_BGUARD = {}
+
+
+def bnode_guard_present():
+    """Gen.Consts.c_min_iri_skips_bnode_prefix, asked from the model binary (entry c17_info): True iff
+    AnnotateMinIriStrategy._determine_suitable_iri_pattern starts with `if longest_common_prefix.startswith("_:"):
+    return None`.  With the test a label stem is never excused."""
+    pid = os.getpid()
+    if pid not in _BGUARD:
+        _BGUARD.clear()
+        _BGUARD[pid] = _mb().call("c17_info", [["x"]])[0][0] == "1"
+    return _BGUARD[pid]
+
+
+def instances_by_class(ts, cfg):
+    """class -> instance ids, from the typing triples of the input data (independent of the model)"""
+    by = {}
+    for (s, p, o) in ts:
+        if p == cfg["tau"] and o[0] in ("I", "B"):
+            if cfg["all_classes"] or o[1] in cfg["targets"]:
+                l = by.setdefault(o[1], [])
+                if s[1] not in l:
+                    l.append(s[1])
+    return by
+
+
+def bnode_only_classes(ts, cfg):
+    """root cause of the label stem, computed from the data: the classes all of whose instances are blank nodes, with
+    their labels (under an instance cap the fold runs over the first instances only: any ':'-terminated prefix of
+    at least three characters of one of the labels may be what the defect prints)"""
+    return {c: ids for c, ids in instances_by_class(ts, cfg).items() if ids and all(i.startswith("_:") for i in ids)}
+
+
+def is_label_stem(st, classes):
+    return len(st) >= 3 and st.endswith(":") and any(i.startswith(st) for ids in classes.values() for i in ids)
+
+
+_RE_STEM_TEXT = re.compile(r"^\S*  \[<([^\n]*?)>~\]  AND", re.M)
+
+
+def label_stems_printed(text):
+    """stems on the shape lines of a ShExC text that start with the blank-node marker: no IRI starts with it"""
+    return [st for st in _RE_STEM_TEXT.findall(text) if st.startswith("_:")]
+
+
+# --------------------------------------------------------------------------
 # cases
 # --------------------------------------------------------------------------
 
@@ -269,6 +319,7 @@ def run_item(item):
         plain["examples_mode"] = None
         base = impl_text(ts, plain)
         res["struct"] = (base[0] == "ok" and strip_real(impl[1]) == base[1])
+        res["label_stems"] = label_stems_printed(impl[1])
         res["n_decor"] = (len(_RE_STEM.findall(impl[1])), len(_RE_CONS.findall(impl[1])), len(_RE_INST.findall(impl[1])))
     return res
 
@@ -286,10 +337,13 @@ def stream(tier, seed, c17_cases, findings, only_item=None):
     else:
         results = run_chunk(items)
     guard = example_guard_present()        # asked after the pool has forked: workers own their model processes
+    bguard = bnode_guard_present()
     close_model()
     st = {"n": len(items), "corr_fail": [], "spec_fail": [], "known_hits": {}, "vm": [],
           "cov": {"cases": len(items), "corpus_cases_replayed_first": sum(1 for i in items if (i.get("origin") or [None])[0] == "corpus"),
                   "example_none_guard_in_source": guard,
+                  "bnode_prefix_guard_in_source": bguard,
+                  "runs_with_a_class_of_blank_nodes_only": 0,
                   "shape_examples_asked_with_instanceless_shape_printed": 0,
                   "impl_ok": 0, "impl_err": {}, "in_strip_domain": 0, "with_stem": 0,
                   "with_constraint_examples": 0, "with_shape_examples": 0, "decorated_runs": 0,
@@ -335,6 +389,17 @@ def stream(tier, seed, c17_cases, findings, only_item=None):
                                             "without them" % (res["impl"][1], cfg.get("detect_minimal_iri"),
                                                               cfg.get("examples_mode")), payload))
             continue
+        if cfg.get("detect_minimal_iri"):
+            # a stem is a prefix of the IRI of every instance: none is printed for a class of blank nodes only
+            bcls = bnode_only_classes(item["ts"], cfg)
+            cov["runs_with_a_class_of_blank_nodes_only"] += bool(bcls)
+            got = res.get("label_stems") or []
+            if got:
+                if "C17-F5" in findings and not bguard and all(is_label_stem(x, bcls) for x in got):
+                    st["known_hits"]["C17-F5"] = st["known_hits"].get("C17-F5", 0) + 1
+                else:
+                    st["spec_fail"].append(("a stem cut out of blank-node labels is printed on a shape line: %r (classes of "
+                                            "blank nodes only: %r)" % (got, sorted(bcls)), payload))
         if res["struct"] is False:
             st["spec_fail"].append(("the text with detect_minimal_iri=%r, examples_mode=%r, decorations removed, differs from "
                                     "the text of the same run without them" % (cfg.get("detect_minimal_iri"),
